@@ -543,6 +543,32 @@ mut('C19-output-sir-averaged-over-axis', 'C19', SX, "        SIR = np.mean(SIR)\
 mut('C07-bingham-log-pdf-complex-typed', 'C07', D + 'complex_bingham.py', "        result = result.real\n        result -= self.log_norm()[..., None]", "        result -= self.log_norm()[..., None]", expect='R-REAL', props=['C07'])
 mut('C09-bingham-duplicate-eigenvalues-not-spread', 'C09', D + 'complex_bingham.py', "        covariance_eigenvalues[..., 1:] = (\n                covariance_eigenvalues[..., 0][..., None]\n                + np.cumsum(diff, axis=-1)\n        )\n", "", expect='R-DROP', props=['C09'])
 neu('N11-unused-temporary-is-not-a-dropped-floor', ALLP, [(D + 'complex_bingham.py', "        diff = np.maximum(diff, eps)\n", "        diff = np.maximum(diff, eps)\n        spread = np.cumsum(diff, axis=-1)\n", False)])
+# ---- fourth pass (round-8 rules): frozen models, memoised results, loops that ignore their index, Hermitian factors, restore on a stack, exclusion by subtraction
+mut('C02-gmm-fixed-covariance-assigned', 'C02', D + 'gmm.py',
+    "            gaussian = gaussian.__class__(\n                mean=gaussian.mean,\n                covariance=fixed_covariance\n            )\n\n        return GMM(",
+    "            gaussian.covariance = fixed_covariance\n\n        return GMM(", expect='R-FROZEN', props=['C02'])
+neu('N14-model-rebuilt-with-new-covariance', ALLP, [(D + 'gmm.py',
+    "            gaussian = gaussian.__class__(\n                mean=gaussian.mean,\n                covariance=fixed_covariance\n            )\n\n        return GMM(",
+    "            model_cls = type(gaussian)\n            gaussian = model_cls(mean=gaussian.mean, covariance=fixed_covariance)\n\n        return GMM(", False)])
+mut('C20-dhtv-identity-mapping-memoised', 'C20', PA,
+    "    def calculate_mapping(self, mask, plot=False):\n        \"\"\"Returns just the mapping based on permuted mask input.",
+    "    @staticmethod\n    @functools.lru_cache(maxsize=8)\n    def _identity_mapping(K, F):\n        return np.repeat(np.arange(K)[:, None], F, axis=1)\n\n"
+    "    def calculate_mapping(self, mask, plot=False):\n        \"\"\"Returns just the mapping based on permuted mask input.",
+    expect='memoised', props=['C20'])
+C[-1]['edits'] += [dict(file=PA, old="        mapping = np.repeat(np.arange(K)[:, None], F, axis=1)\n\n        if plot:", new="        mapping = self._identity_mapping(K, F)\n\n        if plot:", nth=0, all=False),
+                   dict(file=PA, old="import numpy as np\nimport itertools\n", new="import numpy as np\nimport functools\nimport itertools\n", nth=0, all=False)]
+neu('N14-dhtv-identity-mapping-memoised-and-copied', ALLP, [
+    (PA, "    def calculate_mapping(self, mask, plot=False):\n        \"\"\"Returns just the mapping based on permuted mask input.",
+     "    @staticmethod\n    @functools.lru_cache(maxsize=8)\n    def _identity_mapping(K, F):\n        return np.repeat(np.arange(K)[:, None], F, axis=1)\n\n"
+     "    def calculate_mapping(self, mask, plot=False):\n        \"\"\"Returns just the mapping based on permuted mask input.", False),
+    (PA, "        mapping = np.repeat(np.arange(K)[:, None], F, axis=1)\n\n        if plot:", "        mapping = self._identity_mapping(K, F).copy()\n\n        if plot:", False),
+    (PA, "import numpy as np\nimport itertools\n", "import numpy as np\nimport functools\nimport itertools\n", False)])
+mut('C03-get-pca-partial-solver-by-default', 'C03', 'pb_bss/utils.py', "def get_pca(target_psd_matrix, use_scipy=False):", "def get_pca(target_psd_matrix, use_scipy=True):", expect='R-ITER', props=['C03'])
+mut('C03-watson-asks-for-partial-solver', 'C03', D + 'complex_watson.py', "        mode, eigenvalues = get_pca(covariance)", "        mode, eigenvalues = get_pca(covariance, use_scipy=True)", expect='R-ITER', props=['C03'])
+neu('N14-get-pca-partial-solver-indexed', ALLP, [('pb_bss/utils.py', "                target_psd_matrix[-1], eigvals=(D-1, D-1)", "                target_psd_matrix[f], eigvals=(D-1, D-1)", False)])
+mut('C19-input-interference-total-minus-own', 'C19', SX,
+    "    for d in range(D):\n        for k in range(K):\n            I[k, d] = np.sum(\n                S[[n for n in range(K) if n != k], d],\n                axis=0\n            )\n",
+    "    I = np.sum(S, axis=0, keepdims=True) - S\n", expect='exclusion-by-subtraction', props=['C19'])
 # ---- whole refactorings written by independent sub-agents (14-20 behaviour-preserving edits each, verified bit-identical on
 #      600-900 inputs per patch): every check must stay silent on each of them
 for r, what in (('R1', 'mixture_model_utils / cacgmm / cACG'), ('R2', 'cwmm / cbmm / Watson / Bingham / distribution.utils'), ('R3', 'gmm / gaussian / vMF / gcacgmm / vmfcacgmm'),
@@ -571,7 +597,7 @@ for r, what in (('R51', 'mixture_model_utils / cacgmm / cACG'), ('R52', 'cwmm / 
 for r, what in (('R61', 'mixture_model_utils / cacgmm / cACG'), ('R62', 'cwmm / cbmm / Watson / Bingham / distribution.utils'), ('R63', 'gmm / gaussian / vMF / gcacgmm / vmfcacgmm'),
                 ('R64', 'beamformer / beamformer_wrapper / math.solve'), ('R65', 'permutation_alignment / initializers'), ('R66', 'mask_module / sxr_module / si_sdr / utils')):
     # checks that end INCONCLUSIVE (exit 2, no VIOLATION line) on these patches: the model does not follow a construct the patch introduces, and says so (DESIGN 10.5, sixth campaign)
-    undecided = {'R64': ['C13'], 'R65': ['C01', 'C09', 'C14', 'C15', 'C16'], 'R66': ['C06']}.get(r, [])
+    undecided = {'R64': ['C13'], 'R65': ['C01', 'C09', 'C14', 'C15', 'C16'], 'R66': ['C03', 'C06']}.get(r, [])
     C.append(dict(id=f'N12-{r}-dataflow', kind='neutral', properties=ALLP, note=f'independent data-flow restructuring of {what}', patch=f'neutral_patches/{r}.patch', edits=[],
                   inconclusive_ok=undecided))
 # ---- seventh campaign: the broad prompt of campaign 5 again, after the builder had been reworked for campaign 6 (18-24 edits per patch)
